@@ -150,7 +150,7 @@ def sax_sched_case(kind, name, k, A, B):
         elif name == "aborted":
             try:
                 sax.to_sax(wa, AbortingHandler(4 + k))
-            except Abort:
+            except Exception:            # the handler gave up (Abort), or to_sax itself stopped: either way abandoned
                 pass
         h = RecHandler()
         try:
